@@ -89,18 +89,28 @@ def run(ck, rng, tier, prop="C01"):
             Vd, _ = np.linalg.qr(np.array([[rng.gauss(0, 1) for _ in range(m)] for _ in range(m)]))
             X = ((Qd * np.array([1.0, math.sqrt(1 - 2e-4), 0.3])) @ Vd.T + np.array([rng.uniform(-3, 3) for _ in range(m)])).tolist()
             ck.count("leading eigenvalues a hair apart")
+        if c == 9:
+            # a well-determined last component carrying less than 1e-10 of the total sum of squares (spreads 1000, 900 and 0.008),
+            # centring only, every component requested
+            n, m, scaling, kind = 8, 3, 0, "general"
+            Qd, _ = np.linalg.qr(np.array([[rng.gauss(0, 1) for _ in range(m)] for _ in range(n)]))
+            Qd = Qd - Qd.mean(axis=0)
+            Qd, _ = np.linalg.qr(Qd)
+            Vd, _ = np.linalg.qr(np.array([[rng.gauss(0, 1) for _ in range(m)] for _ in range(m)]))
+            X = ((Qd * np.array([1e3, 9e2, 8e-3])) @ Vd.T + np.array([rng.uniform(-3, 3) for _ in range(m)])).tolist()
+            ck.count("last component below 1e-10 of the total sum of squares")
         from props import c02
         Xc = c02.preprocess(np.array(X), scaling)
         rank = int(np.linalg.matrix_rank(Xc, tol=1e-8 * max(1.0, np.abs(Xc).max())))
         if rank < 1:
             continue
         npc = rng.choice((1, rank, rank, rng.randint(1, rank)))
-        if c < 4 or c in (7, 8):
+        if c < 4 or c in (7, 8, 9):
             npc = rank
         nproc = rng.choice((1, 1, 2, 3, 5, 8, 16))
         if c in (4, 5):
             nproc = (2, 4)[c - 4]
-        if c == 8:
+        if c in (8, 9):
             nproc = 1
         New = [[rng.gauss(0, 1) for _ in range(m)] for _ in range(2)]
         lines.append("pca %s %s %d %d %d" % (vf.fmt_mat(X, m), vf.fmt_mat(New, m), scaling, npc, nproc))
